@@ -235,6 +235,11 @@ def run_case(model, rng, version, plan, want, device_id=123456):
                                 "expected": expected_client_view(model, app.ac.state, ac.supports_custom_fan_speed),
                                 "device": list(app.ac.state)}
             obs["earlier_views"] = [expected_client_view(model, h, ac2.supports_custom_fan_speed) for h in app.ac.history[:-1]]
+        if plan.get("local_edit"):
+            # the user changes attributes locally and does NOT apply them; a refresh must show the appliance's state again
+            set_attributes(ac, AC, plan["local_edit"])
+            net.run(ac.refresh())
+            obs["local_edit"] = {"read": client_view(ac), "expected": expected_client_view(model, app.ac.state, ac.supports_custom_fan_speed)}
         obs["rejected_frames"] = len(app.ac.rejected)
     except BaseException as e:  # noqa: BLE001
         obs["status"] = exn_code(e)
